@@ -792,11 +792,14 @@ func (e *enc) evalCall(n *SCall, env *Env) SVal {
 		// decimal rendering of an integer (fmt.Sprint of an integer operand)
 		e.declareFun("dec", "(Int) Str")
 		return SVal{t: fmt.Sprintf("(dec %s)", arg(0).t), sort: "Str", typ: types.Typ[types.String]}
-	case "sent":
+	case "sent", "rcvd":
 		if len(n.args) != 1 {
-			env.fail("sent(<channel>) takes one argument")
+			env.fail("sent/rcvd(<channel>) takes one argument")
 		}
 		name := specPathText(n.args[0])
+		if n.fun == "rcvd" {
+			name = "<-" + name
+		}
 		cell, ok := e.sentCounters[name]
 		if !ok {
 			env.fail("sent(" + name + "): not a channel name known to this contract")
